@@ -1,8 +1,8 @@
 import CanvasProofs.Lemmas.C12
 /-!
 C12, PDF: the blocks of `PDF.RenderPath` (fill block, stroke set-up, painting) simulated by the
-interpreter, with the cache after each block, assuming lawful `==` and a cache alpha equal to the
-alpha of the paints used (the class outside is the recorded stale-alpha defect).
+interpreter, with the cache after each block, assuming lawful `==` (since 4ddfe43/4ddd6d5 every
+paint sets its own alpha, no assumption on the cache's alpha is left).
 -/
 namespace Canvas.C12
 section
@@ -10,15 +10,15 @@ variable {ν : Type} {N : Num ν}
 
 /-- the cache after the five stroke setters -/
 def strokeCache (N : Num ν) (d : Draw ν) (c : PC ν) : PC ν :=
-  { c with stroke := d.stroke, lw := d.w' N true, cap := d.cap, join := joinCode d.join,
+  { c with stroke := d.stroke, alpha := d.stroke.alpha, lw := d.w' N true, cap := d.cap, join := joinCode d.join,
            ml := (match joinLimit d.join with | some l => l | none => c.ml),
            dashes := pdfDashArr (d.dashes' N true), phase := pdfPhaseOf N (d.off' N true) (d.dashes' N true) }
 
 theorem strokeSetup_c (L : Lawful N) (d : Draw ν) (w : PW ν) (hs : d.stroke ≠ .none) (hj : d.join.pdfOk = true)
-    (ha : d.stroke.alphaIs w.c.alpha) (hi : PInv N w.c) :
+    (hi : PInv N w.c) :
     (PAct.seq (pdfStrokeSetup N d) w).1.c = strokeCache N d w.c := by
   simp only [pdfStrokeSetup, hj, PAct.seq]
-  have e1 := setStroke_c d.stroke hs w ha
+  have e1 := setStroke_c d.stroke hs w
   have e2 := setLineWidth_c L (d.w' N true) (setStroke d.stroke w).1
   rw [e1] at e2
   have e3 := setLineCap_c d.cap (setLineWidth N (d.w' N true) (setStroke d.stroke w).1).1
@@ -42,7 +42,7 @@ theorem strokeSetup_sim (d : Draw ν) (w : PW ν) (hs : d.stroke ≠ .none) (hj 
           (PSim.cons (setDashes_sim (N := N) (d.off' N d.join.pdfOk) (d.dashes' N d.join.pdfOk) _) (PSim.nil _)))))
   simpa using this
 
-theorem strokeCache_alpha (d : Draw ν) (c : PC ν) : (strokeCache N d c).alpha = c.alpha := rfl
+theorem strokeCache_alpha (d : Draw ν) (c : PC ν) : (strokeCache N d c).alpha = d.stroke.alpha := rfl
 theorem strokeCache_fill (d : Draw ν) (c : PC ν) : (strokeCache N d c).fill = c.fill := rfl
 
 theorem strokeCache_inv (d : Draw ν) (c : PC ν) : PInv N (strokeCache N d c) := by
@@ -67,18 +67,15 @@ def refStroke (N : Num ν) (d : Draw ν) : Painted ν :=
   .stroke [.orig d.pid] d.closed (shadeOf d.stroke) d.stroke.alpha (d.w' N true) d.cap (joinCode d.join) (joinLimit d.join)
     (pdfDashArr (d.dashes' N true)) (pdfPhaseOf N (d.off' N true) (d.dashes' N true))
 
-theorem strokeItem_ref (d : Draw ν) (c : PC ν) (hj : d.join.pdfOk = true) (a : Nat) (hc : c.alpha = a)
-    (ha : d.stroke.alphaIs a) (hs : d.stroke ≠ .none) :
+theorem strokeItem_ref (d : Draw ν) (c : PC ν) (hj : d.join.pdfOk = true) :
     (gOf (strokeCache N d c)).strokeItem (.orig d.pid) d.closed = refStroke N d := by
-  have hal := Paint.alphaIs_alpha ha hs
   unfold PG.strokeItem refStroke
   rw [strokeCache_ml (N := N) d c hj]
-  simp [gOf, strokeCache, hc, hal]
+  simp [gOf, strokeCache]
 
-theorem fillItem_ref (p : Paint) (c : PC ν) (a : Nat) (hc : c.alpha = a) (ha : p.alphaIs a) (hp : p ≠ .none)
-    (r : PathRef) (eo : Bool) :
-    (gOf { c with fill := p }).fillItem r eo = .fill [r] eo (shadeOf p) p.alpha := by
-  simp [PG.fillItem, gOf, hc, Paint.alphaIs_alpha ha hp]
+theorem fillItem_ref (p : Paint) (c : PC ν) (r : PathRef) (eo : Bool) :
+    (gOf { c with fill := p, alpha := p.alpha }).fillItem r eo = .fill [r] eo (shadeOf p) p.alpha := by
+  simp [PG.fillItem, gOf]
 
 end
 end Canvas.C12
@@ -98,23 +95,22 @@ theorem pdfPaint_bothK (g : PG ν) (p : PathRef) (cl eo : Bool) :
   cases cl <;> cases eo <;> simp [bothK, pdfPaint]
 
 /-- fill block: `SetFill; data; f|f*` -/
-theorem blockFill (p : Paint) (hp : p ≠ .none) (w : PW ν) (a : Nat) (hw : w.c.alpha = a) (ha : p.alphaIs a)
-    (r : PathRef) (eo : Bool) :
+theorem blockFill (p : Paint) (hp : p ≠ .none) (w : PW ν) (r : PathRef) (eo : Bool) :
     PSim (PAct.seq [setFill p, say [.path r, .paint (fillK eo)]]) w [.fill [r] eo (shadeOf p) p.alpha] ∧
-    (PAct.seq [setFill p, say [.path r, .paint (fillK eo)]] w).1.c = { w.c with fill := p } := by
-  have hc := setFill_c p hp w (hw ▸ ha)
+    (PAct.seq [setFill p, say [.path r, .paint (fillK eo)]] w).1.c = { w.c with fill := p, alpha := p.alpha } := by
+  have hc := setFill_c p hp w
   constructor
   · have h := PSim.cons (setFill_sim p hp w) (PSim.single (say_path_paint_sim r (fillK eo) (setFill p w).1))
-    rw [hc, pdfPaint_fillK, fillItem_ref p w.c a hw ha hp] at h
+    rw [hc, pdfPaint_fillK, fillItem_ref p w.c] at h
     simpa using h
   · simp [PAct.seq, say, hc]
 
 /-- stroke block: the five setters, `data`, one painting operator -/
 theorem blockStroke (L : Lawful N) (d : Draw ν) (w : PW ν) (hs : d.stroke ≠ .none) (hj : d.join.pdfOk = true)
-    (ha : d.stroke.alphaIs w.c.alpha) (hi : PInv N w.c) (r : PathRef) (k : PK) :
+    (hi : PInv N w.c) (r : PathRef) (k : PK) :
     PSim (PAct.seq (pdfStrokeSetup N d ++ [say [.path r, .paint k]])) w (pdfPaint (gOf (strokeCache N d w.c)) r k) ∧
     (PAct.seq (pdfStrokeSetup N d ++ [say [.path r, .paint k]]) w).1.c = strokeCache N d w.c := by
-  have hc := strokeSetup_c L d w hs hj ha hi
+  have hc := strokeSetup_c L d w hs hj hi
   constructor
   · have h := PSim.append (strokeSetup_sim (N := N) d w hs hj)
       (PSim.single (say_path_paint_sim r k (PAct.seq (pdfStrokeSetup N d) w).1))
@@ -122,21 +118,20 @@ theorem blockStroke (L : Lawful N) (d : Draw ν) (w : PW ν) (hs : d.stroke ≠ 
     simpa using h
   · simp [PAct.seq_append, PAct.seq, say, hc]
 
-structure Draw.UniformAlpha (d : Draw ν) (a : Nat) : Prop where
-  fill : d.fill.alphaIs a
-  stroke : d.stroke.alphaIs a
-
 theorem Paint.has_ne {p : Paint} (h : p.has = true) : p ≠ .none := by
   cases p <;> simp_all [Paint.has]
 
 theorem pdfRef_eq (d : Draw ν) :
     pdfRef N d = refPaint N d.join.pdfOk pdfDashArr (fun ph a => pdfPhaseOf N ph a) d := rfl
 
-/-- one `PDF.RenderPath` call from a cache with alpha `a`, paints of alpha `a`: the interpreter paints the
-reference and ends in the state the new cache claims; alpha and well-formedness are kept -/
-theorem pdfDraw_refines (L : Lawful N) (d : Draw ν) (w : PW ν) (a : Nat) (hw : w.c.alpha = a)
-    (hu : d.UniformAlpha a) (hi : PInv N w.c) :
-    PSim (pdfDraw N d) w (pdfRef N d) ∧ (pdfDraw N d w).1.c.alpha = a ∧ PInv N (pdfDraw N d w).1.c := by
+theorem sameAlpha_eq {d : Draw ν} (h : d.sameAlpha = true) : d.fill.alpha = d.stroke.alpha := by
+  simp [Draw.sameAlpha] at h
+  exact h.2
+
+/-- one `PDF.RenderPath` call from ANY cache: the interpreter paints the reference and ends in the state the
+new cache claims; cache well-formedness is kept -/
+theorem pdfDraw_refines (L : Lawful N) (d : Draw ν) (w : PW ν) (hi : PInv N w.c) :
+    PSim (pdfDraw N d) w (pdfRef N d) ∧ PInv N (pdfDraw N d w).1.c := by
   rw [pdfRef_eq]
   by_cases hs : d.hasStroke N d.join.pdfOk = true
   · have hsn : d.stroke ≠ .none := Paint.has_ne (by simp [Draw.hasStroke] at hs; exact hs.1)
@@ -151,51 +146,43 @@ theorem pdfDraw_refines (L : Lawful N) (d : Draw ν) (w : PW ν) (a : Nat) (hw :
           have e : pdfDraw N d = PAct.seq ([setFill d.fill] ++ (pdfStrokeSetup N d ++
               [say [.path (.orig d.pid), .paint (bothK d.closed d.evenOdd)]])) := by
             funext w; simp [pdfDraw, hs, hn, hf, hsa]
-          have hc1 := setFill_c d.fill hfn w (hw ▸ hu.fill)
+          have hc1 := setFill_c d.fill hfn w
           have hi1 : PInv N (PAct.seq [setFill d.fill] w).1.c := by
             rw [PAct.seq_single, hc1]; exact hi
-          have ha1 : d.stroke.alphaIs (PAct.seq [setFill d.fill] w).1.c.alpha := by
-            rw [PAct.seq_single, hc1]; exact hw ▸ hu.stroke
-          have b := blockStroke L d (PAct.seq [setFill d.fill] w).1 hsn hj ha1 hi1 (.orig d.pid) (bothK d.closed d.evenOdd)
+          have b := blockStroke L d (PAct.seq [setFill d.fill] w).1 hsn hj hi1 (.orig d.pid) (bothK d.closed d.evenOdd)
           have h := PSim.append (PSim.single (setFill_sim d.fill hfn w)) b.1
           rw [e]
-          refine ⟨?_, ?_, ?_⟩
-          · rw [PAct.seq_single, hc1, pdfPaint_bothK,
-              strokeItem_ref d _ hj a (by simpa using hw) hu.stroke hsn] at h
-            have hfi : (gOf (strokeCache N d { w.c with fill := d.fill })).fillItem (.orig d.pid) d.evenOdd =
+          refine ⟨?_, ?_⟩
+          · rw [PAct.seq_single, hc1, pdfPaint_bothK, strokeItem_ref d _ hj] at h
+            have hfi : (gOf (strokeCache N d { w.c with fill := d.fill, alpha := d.fill.alpha })).fillItem (.orig d.pid) d.evenOdd =
                 .fill [.orig d.pid] d.evenOdd (shadeOf d.fill) d.fill.alpha := by
-              simp [PG.fillItem, gOf, strokeCache, hw, Paint.alphaIs_alpha hu.fill hfn]
+              simp [PG.fillItem, gOf, strokeCache, sameAlpha_eq hsa]
             rw [hfi] at h
             simpa [refPaint, hj, hs', hn', hf, refStroke] using h
-          · rw [PAct.seq_append, b.2, PAct.seq_single, hc1]; simpa [strokeCache] using hw
           · rw [PAct.seq_append, b.2]; exact strokeCache_inv d _
         · -- SetFill, data, f[*]; stroke set-up, data, s|S
           have e : pdfDraw N d = PAct.seq ([setFill d.fill, say [.path (.orig d.pid), .paint (fillK d.evenOdd)]] ++
               (pdfStrokeSetup N d ++ [say [.path (.orig d.pid), .paint (strokeK d.closed)]])) := by
             funext w; simp [pdfDraw, hs, hn, hf, hsa]
-          have bf := blockFill d.fill hfn w a hw hu.fill (.orig d.pid) d.evenOdd
+          have bf := blockFill d.fill hfn w (.orig d.pid) d.evenOdd
           have hi1 : PInv N (PAct.seq [setFill d.fill, say [.path (.orig d.pid), .paint (fillK d.evenOdd)]] w).1.c := by
             rw [bf.2]; exact hi
-          have ha1 : d.stroke.alphaIs (PAct.seq [setFill d.fill, say [.path (.orig d.pid), .paint (fillK d.evenOdd)]] w).1.c.alpha := by
-            rw [bf.2]; exact hw ▸ hu.stroke
-          have b := blockStroke L d _ hsn hj ha1 hi1 (.orig d.pid) (strokeK d.closed)
+          have b := blockStroke L d _ hsn hj hi1 (.orig d.pid) (strokeK d.closed)
           have h := PSim.append bf.1 b.1
           rw [e]
-          refine ⟨?_, ?_, ?_⟩
-          · rw [bf.2, pdfPaint_strokeK, strokeItem_ref d _ hj a (by simpa using hw) hu.stroke hsn] at h
+          refine ⟨?_, ?_⟩
+          · rw [bf.2, pdfPaint_strokeK, strokeItem_ref d _ hj] at h
             simpa [refPaint, hj, hs', hn', hf, refStroke] using h
-          · rw [PAct.seq_append, b.2, bf.2]; simpa [strokeCache] using hw
           · rw [PAct.seq_append, b.2]; exact strokeCache_inv d _
       · -- stroke only
         have e : pdfDraw N d = PAct.seq (pdfStrokeSetup N d ++ [say [.path (.orig d.pid), .paint (strokeK d.closed)]]) := by
           funext w; simp [pdfDraw, hs, hn, hf]
-        have b := blockStroke L d w hsn hj (hw ▸ hu.stroke) hi (.orig d.pid) (strokeK d.closed)
+        have b := blockStroke L d w hsn hj hi (.orig d.pid) (strokeK d.closed)
         rw [e]
-        refine ⟨?_, ?_, ?_⟩
+        refine ⟨?_, ?_⟩
         · have h := b.1
-          rw [pdfPaint_strokeK, strokeItem_ref d _ hj a hw hu.stroke hsn] at h
+          rw [pdfPaint_strokeK, strokeItem_ref d _ hj] at h
           simpa [refPaint, hj, hs', hn', hf, refStroke] using h
-        · rw [b.2]; simpa [strokeCache] using hw
         · rw [b.2]; exact strokeCache_inv d _
     · -- explicit outline
       by_cases hf : d.hasFill = true
@@ -203,37 +190,34 @@ theorem pdfDraw_refines (L : Lawful N) (d : Draw ν) (w : PW ν) (a : Nat) (hw :
         have e : pdfDraw N d = PAct.seq ([setFill d.fill, say [.path (.orig d.pid), .paint (fillK d.evenOdd)]] ++
             [setFill d.stroke, say [.path (.outline d.pid), .paint (fillK false)]]) := by
           funext w; simp [pdfDraw, hs, hn, hf, fillK]
-        have bf := blockFill d.fill hfn w a hw hu.fill (.orig d.pid) d.evenOdd
-        have bs := blockFill d.stroke hsn (PAct.seq [setFill d.fill, say [.path (.orig d.pid), .paint (fillK d.evenOdd)]] w).1 a
-          (by rw [bf.2]; exact hw) hu.stroke (.outline d.pid) false
+        have bf := blockFill d.fill hfn w (.orig d.pid) d.evenOdd
+        have bs := blockFill d.stroke hsn (PAct.seq [setFill d.fill, say [.path (.orig d.pid), .paint (fillK d.evenOdd)]] w).1
+          (.outline d.pid) false
         have h := PSim.append bf.1 bs.1
         rw [e]
-        refine ⟨?_, ?_, ?_⟩
+        refine ⟨?_, ?_⟩
         · simpa [refPaint, hs, hn, hf] using h
-        · rw [PAct.seq_append, bs.2, bf.2]; exact hw
         · rw [PAct.seq_append, bs.2, bf.2]; exact hi
       · have e : pdfDraw N d = PAct.seq [setFill d.stroke, say [.path (.outline d.pid), .paint (fillK false)]] := by
           funext w; simp [pdfDraw, hs, hn, hf, fillK]
-        have bs := blockFill d.stroke hsn w a hw hu.stroke (.outline d.pid) false
+        have bs := blockFill d.stroke hsn w (.outline d.pid) false
         rw [e]
-        refine ⟨?_, ?_, ?_⟩
+        refine ⟨?_, ?_⟩
         · simpa [refPaint, hs, hn, hf] using bs.1
-        · rw [bs.2]; exact hw
         · rw [bs.2]; exact hi
   · by_cases hf : d.hasFill = true
     · have hfn : d.fill ≠ .none := Paint.has_ne hf
       have e : pdfDraw N d = PAct.seq [setFill d.fill, say [.path (.orig d.pid), .paint (fillK d.evenOdd)]] := by
         funext w; simp [pdfDraw, hs, hf]
-      have bf := blockFill d.fill hfn w a hw hu.fill (.orig d.pid) d.evenOdd
+      have bf := blockFill d.fill hfn w (.orig d.pid) d.evenOdd
       rw [e]
-      refine ⟨?_, ?_, ?_⟩
+      refine ⟨?_, ?_⟩
       · simpa [refPaint, hs, hf] using bf.1
-      · rw [bf.2]; exact hw
       · rw [bf.2]; exact hi
     · have e : pdfDraw N d = say [] := by
         funext w; simp [pdfDraw, hs, hf]
       rw [e]
-      refine ⟨?_, hw, hi⟩
+      refine ⟨?_, hi⟩
       simp [PSim, say, pdfRun, refPaint, hs, hf]
 
 end
